@@ -50,9 +50,12 @@ class SimWorker:
             if loader.post_init_probe is not None:
                 loader.post_init_probe(self)
 
-    def run(self, idxs):
+    def run(self, idxs, probe=None):
         with self.proc.on_cpu():
-            return self.fetcher.fetch(idxs)
+            out = self.fetcher.fetch(idxs)
+            if probe is not None:
+                probe(self)
+            return out
 
 
 class SimDataLoader:
@@ -61,6 +64,7 @@ class SimDataLoader:
     trace = None  # list to which (worker, batch_index) execution events are appended
     pre_init_probe = None
     post_init_probe = None
+    post_batch_probe = None
     amb_seed = 0
     created = None  # list of created loaders (for inspection)
 
@@ -133,7 +137,7 @@ class SimDataLoader:
                 bi, idxs = queues[pick].pop(0)
                 if trace is not None:
                     trace.append([pick, bi])
-                done[bi] = self.workers[pick].run(idxs)
+                done[bi] = self.workers[pick].run(idxs, cls.post_batch_probe)
             out = done.pop(rcvd)
             rcvd += 1
             put()
